@@ -60,6 +60,7 @@ class Contract:
         self.rename = None
         self.closures = {}
         self.btree_loops = []
+        self.let_types = {}
         self.loop_iter = {}
         self.rename_calls = {}
 
@@ -120,6 +121,10 @@ def parse_contracts(path):
         elif word == 'closure':
             mm = re.match(r'(\d+)\s*:\s*(.*)$', rest)
             cur.closures[int(mm.group(1))] = mm.group(2)
+            last = None
+        elif word == 'let_type':
+            v, ty = rest.split(None, 1)
+            cur.let_types[v] = ty
             last = None
         elif word == 'btree_loops':
             cur.btree_loops = rest.split()
@@ -332,6 +337,12 @@ def apply_rewrites(body, rel, base_line, log):
     # R12: std's two-parameter `Result<T, E>` (the assembled file has the crate's one-parameter alias `Result<T>` in scope)
     body = qualify_std_result(body, note)
 
+    # R17: `X.iter().any(` -> `vec_iter_any(&X, `
+    def r17(m):
+        note('R17', m.start(), m.group(0))
+        return 'vec_iter_any(&%s, ' % m.group(1)
+    body = re.sub(r'((?:[A-Za-z_][A-Za-z0-9_]*\.)*[A-Za-z_][A-Za-z0-9_]*)\s*\.iter\(\)\s*\.any\(', r17, body)
+
     # R10: `(ident as f64)` -> `(cast_i128_as_f64(ident))`
     def r10(m):
         note('R10', m.start(), m.group(0))
@@ -382,6 +393,78 @@ def apply_rewrites(body, rel, base_line, log):
         pos = e
     out.append(body[pos:])
     return ''.join(out)
+
+
+def parse_format_string(lit):
+    """lit: the contents of a format string literal (between the quotes).  Returns list of pieces:
+    ('lit', text) | ('display', ident) | ('debug', ident); None if it uses anything else (positional args, width, ...)"""
+    pieces = []
+    i = 0
+    cur = ''
+    while i < len(lit):
+        ch = lit[i]
+        if ch == '{':
+            if lit.startswith('{{', i):
+                cur += '{'
+                i += 2
+                continue
+            j = lit.find('}', i)
+            if j < 0:
+                return None
+            inner = lit[i + 1:j]
+            m = re.match(r'^([A-Za-z_][A-Za-z0-9_]*)(:\?)?$', inner)
+            if not m:
+                return None
+            if cur:
+                pieces.append(('lit', cur))
+                cur = ''
+            pieces.append(('debug' if m.group(2) else 'display', m.group(1)))
+            i = j + 1
+        elif ch == '}':
+            if lit.startswith('}}', i):
+                cur += '}'
+                i += 2
+                continue
+            return None
+        elif ch == '\\':
+            return None      # escapes inside the literal: not handled (tool limit)
+        else:
+            cur += ch
+            i += 1
+    if cur:
+        pieces.append(('lit', cur))
+    return pieces
+
+
+def rewrite_format(body, rel, base_line, log, helpers, prefix):
+    """R5: `format!("...{a}...{b:?}...")` (inline arguments only) -> call of a generated external_body function whose
+    `ensures` is the piece-wise concatenation of the literal pieces and fmt_display / fmt_debug of the arguments."""
+    def rr(m):
+        pieces = parse_format_string(m.group(1))
+        if pieces is None:
+            raise ExtractError('format! at %s:%d uses a form the extractor does not handle' % (rel, base_line + body.count('\n', 0, m.start())))
+        n = len(helpers) + 1
+        name = 'fmt_r5_%s_%d' % (prefix, n)
+        args = [p for p in pieces if p[0] != 'lit']
+        gens = []
+        params = []
+        terms = []
+        k = 0
+        for kind, txt in pieces:
+            if kind == 'lit':
+                terms.append('seq![%s]' % ', '.join("'%s'" % (c if c not in "'\\" else '\\' + c) for c in txt))
+            else:
+                gens.append('A%d: core::fmt::%s' % (k, 'Display' if kind == 'display' else 'Debug'))
+                params.append('a%d: &A%d' % (k, k))
+                terms.append('%s(a%d)' % ('fmt_display' if kind == 'display' else 'fmt_debug', k))
+                k += 1
+        fmt = ''.join(txt.replace('{', '{{').replace('}', '}}') if kind == 'lit' else ('{}' if kind == 'display' else '{:?}') for kind, txt in pieces)
+        helpers.append('#[verifier::external_body]\npub fn %s<%s>(%s) -> (r: String)\n    ensures r@ == %s,\n{ format!("%s"%s) }\n' % (
+            name, ', '.join(gens), ', '.join(params), ' + '.join(terms) if terms else 'Seq::<char>::empty()', fmt,
+            ''.join(', a%d' % i for i in range(k))))
+        log.append({'rule': 'R5', 'where': '%s:%d' % (rel, base_line + body.count('\n', 0, m.start())), 'text': m.group(0)})
+        return '%s(%s)' % (name, ', '.join('&' + a[1] for a in args))
+    return re.sub(r'format!\(\s*"((?:[^"\\]|\\.)*)"\s*\)', rr, body)
 
 
 def qualify_std_result(text, note=None):
@@ -650,6 +733,11 @@ class Assembler:
         body = re.sub(r'pub\s*\(\s*(crate|super)\s*\)', 'pub', body)     # visibility only: one module in the assembled file
         if kind == 'struct':
             body = publicize_fields(body)
+        if kind in ('const', 'static'):
+            # R14: the elided lifetime of a reference in a const/static item is 'static (Rust's own rule); verus! needs it written
+            body, n14 = re.subn(r"&\s*(?!')(?=[A-Za-z\[])", "&'static ", body.split('=', 1)[0])[0] + '=' + body.split('=', 1)[1], 0
+            if not body.startswith('pub'):
+                body = 'pub ' + body
         if re.match(r'^(pub\s+)?struct\s+%s\s*<\s*\'' % re.escape(name), body):
             self.lifetime_types.add(name)
         self.hashes.append({'item': '%s %s' % (kind, name), 'file': rel,
@@ -687,6 +775,12 @@ class Assembler:
             head_clean, nsub = re.subn(r'\b%s\b(?!\s*<)' % re.escape(lt), lt + "<'_>", head_clean)
             if nsub and 'Self' not in head_clean.split('->')[-1]:
                 self.rewrites.append({'rule': 'R11', 'where': '%s:%d' % (c.src, fn_line), 'text': "%s -> %s<'_>" % (lt, lt)})
+        self_mut = False
+        if re.search(r'\(\s*mut\s+self\b', head_clean):
+            # R16: Verus does not support a `mut self` receiver: bind it to a mutable local instead
+            head_clean = re.sub(r'\(\s*mut\s+self\b', '(self', head_clean, count=1)
+            self_mut = True
+            self.rewrites.append({'rule': 'R16', 'where': '%s:%d' % (c.src, fn_line), 'text': 'mut self -> self; let mut self_r16 = self; (self renamed in the body)'})
         if c.rename:
             # R9: alpha-rename the item (Verus rejects a fn whose name equals one of its parameters)
             head_clean, nsub = re.subn(r'^fn\s+%s\b' % re.escape(c.name), 'fn ' + c.rename, head_clean)
@@ -705,6 +799,105 @@ class Assembler:
         out_attrs = list(c.attrs)
         if imported:
             out_attrs.append('#[verifier::external_body]')
+        b = None
+        log = []
+        helpers = []
+        self_mut_body = bool(re.search(r'\(\s*mut\s+self\b', head))
+        if not imported:
+            # body: rewrites, ghost args, loop clauses, hints
+            b = body
+            # loop clause + hint insertion work on offsets, so do them before text-changing rewrites,
+            # from the back to the front.
+            loops = find_loops(b)
+            inserts = []  # (offset, text)
+            for n, cls in c.loops.items():
+                if n < 1 or n > len(loops):
+                    raise ExtractError('lost anchor: fn %s has %d loops, contract names loop %d' % (key, len(loops), n))
+                lo, lc, in_pos = loops[n - 1]
+                if n in c.loop_iter:
+                    if in_pos is None:
+                        raise ExtractError('fn %s: loop %d is not a for loop' % (key, n))
+                    inserts.append((in_pos, ' %s:' % c.loop_iter[n]))
+                txt = []
+                for kind in ('invariant', 'decreases'):
+                    cc = [x for x in cls if x.kind == kind]
+                    if cc:
+                        txt.append('\n    %s' % kind)
+                        for x in cc:
+                            txt.append('\n        /*@%s@*/ %s,' % (x.cid, x.text))
+                inserts.append((lo, ''.join(txt) + '\n    '))
+            for anchor, text in c.hints.items():
+                if anchor.startswith('__'):
+                    continue
+                m = re.match(r'loop (\d+) (start|end)$', anchor)
+                if anchor == 'first':
+                    inserts.append((1, '\n' + text + '\n'))
+                elif anchor == 'last':
+                    # before the final expression is not generally identifiable; 'last' = just before closing brace
+                    inserts.append((len(b) - 1, '\n' + text + '\n'))
+                elif m:
+                    n = int(m.group(1))
+                    if n < 1 or n > len(loops):
+                        raise ExtractError('lost anchor: fn %s loop %d for hint' % (key, n))
+                    lo, lc, _ip = loops[n - 1]
+                    if m.group(2) == 'end':
+                        # R13: a loop body has type (); terminate its last expression statement so a ghost block can follow
+                        tail = b[lo + 1:lc].rstrip()
+                        semi = '' if (tail.endswith(';') or tail.endswith('}') or tail == '') else ';'
+                        if semi:
+                            log.append({'rule': 'R13', 'where': '%s:%d' % (c.src, base_line + b.count('\n', 0, lc)), 'text': "';' appended to the last statement of loop %d" % n})
+                        inserts.append((lc, semi + '\n' + text + '\n'))
+                    else:
+                        inserts.append((lo + 1, '\n' + text + '\n'))
+                elif anchor.startswith('before '):
+                    needle = anchor[len('before '):]
+                    cnt = b.count(needle)
+                    if cnt != 1:
+                        raise ExtractError('lost anchor: fn %s hint anchor %r occurs %d times' % (key, needle, cnt))
+                    inserts.append((b.index(needle), text + '\n'))
+                elif anchor.startswith('after '):
+                    needle = anchor[len('after '):]
+                    cnt = b.count(needle)
+                    if cnt != 1:
+                        raise ExtractError('lost anchor: fn %s hint anchor %r occurs %d times' % (key, needle, cnt))
+                    inserts.append((b.index(needle) + len(needle), '\n' + text + '\n'))
+                else:
+                    raise ExtractError('fn %s: unknown hint anchor %r' % (key, anchor))
+            # Apply rewrites on segments between inserts so that offsets stay valid: simplest is to mark
+            # insert points with unique placeholders first.
+            marks = {}
+            for idx, (off, text) in enumerate(sorted(inserts, key=lambda x: -x[0])):
+                ph = '/*@@INS%d@@*/' % idx
+                marks[ph] = text
+                b = b[:off] + ph + b[off:]
+            b = rewrite_format(b, c.src, base_line, log, helpers, re.sub(r'\W+', '_', key))
+            b = apply_rewrites(b, c.src, base_line, log)
+            b = annotate_closures(b, c.closures, c.src, base_line, log)
+            for lv, lty in c.let_types.items():
+                # R15: type ascription on a `let` whose type verus! cannot infer (rustc re-checks the ascribed type)
+                b, n15 = re.subn(r'\blet\s+(mut\s+)?%s\s*=' % re.escape(lv), lambda m: 'let %s%s: %s =' % (m.group(1) or '', lv, lty), b)
+                if n15 != 1:
+                    raise ExtractError('lost anchor: fn %s: let %s occurs %d times' % (key, lv, n15))
+                log.append({'rule': 'R15', 'where': '%s:%d' % (c.src, base_line), 'text': 'let %s: %s' % (lv, lty)})
+            if c.btree_loops:
+                b = rewrite_for_btree(b, c.btree_loops, c.src, base_line, log)
+            if c.rename_calls:
+                b = rename_calls(b, c.rename_calls, c.src, base_line, log)
+            if c.ghost_calls:
+                garg = c.hints.get('__ghost_arg__', 'Tracked(log)')
+                b = insert_ghost_args(b, set(c.ghost_calls), garg, c.src, base_line, log)
+            for ph, text in marks.items():
+                b = b.replace(ph, text)
+
+        if b is not None and self_mut_body:
+            toks_b = rsscan.tokenize(b)
+            out_b = []
+            for t in toks_b:
+                out_b.append('self_r16' if (t[0] == 'ident' and t[1] == 'self') else t[1])
+            b = ''.join(out_b)
+            b = '{\n    let mut self_r16 = self;' + b[1:]
+        for h in helpers:
+            self.emit(h)
         # header (methods are wrapped in their real impl header)
         if it.ctx:
             for pre in c.hints.get('__before_impl__', '').split('\n'):
@@ -736,84 +929,6 @@ class Assembler:
         if imported:
             self.emit('{ unimplemented!() }' + ('\n}' if it.ctx else '') + '\n')
             return
-        # body: rewrites, ghost args, loop clauses, hints
-        log = []
-        b = body
-        # loop clause + hint insertion work on offsets, so do them before text-changing rewrites,
-        # from the back to the front.
-        loops = find_loops(b)
-        inserts = []  # (offset, text)
-        for n, cls in c.loops.items():
-            if n < 1 or n > len(loops):
-                raise ExtractError('lost anchor: fn %s has %d loops, contract names loop %d' % (key, len(loops), n))
-            lo, lc, in_pos = loops[n - 1]
-            if n in c.loop_iter:
-                if in_pos is None:
-                    raise ExtractError('fn %s: loop %d is not a for loop' % (key, n))
-                inserts.append((in_pos, ' %s:' % c.loop_iter[n]))
-            txt = []
-            for kind in ('invariant', 'decreases'):
-                cc = [x for x in cls if x.kind == kind]
-                if cc:
-                    txt.append('\n    %s' % kind)
-                    for x in cc:
-                        txt.append('\n        /*@%s@*/ %s,' % (x.cid, x.text))
-            inserts.append((lo, ''.join(txt) + '\n    '))
-        for anchor, text in c.hints.items():
-            if anchor.startswith('__'):
-                continue
-            m = re.match(r'loop (\d+) (start|end)$', anchor)
-            if anchor == 'first':
-                inserts.append((1, '\n' + text + '\n'))
-            elif anchor == 'last':
-                # before the final expression is not generally identifiable; 'last' = just before closing brace
-                inserts.append((len(b) - 1, '\n' + text + '\n'))
-            elif m:
-                n = int(m.group(1))
-                if n < 1 or n > len(loops):
-                    raise ExtractError('lost anchor: fn %s loop %d for hint' % (key, n))
-                lo, lc, _ip = loops[n - 1]
-                if m.group(2) == 'end':
-                    # R13: a loop body has type (); terminate its last expression statement so a ghost block can follow
-                    tail = b[lo + 1:lc].rstrip()
-                    semi = '' if (tail.endswith(';') or tail.endswith('}') or tail == '') else ';'
-                    if semi:
-                        log.append({'rule': 'R13', 'where': '%s:%d' % (c.src, base_line + b.count('\n', 0, lc)), 'text': "';' appended to the last statement of loop %d" % n})
-                    inserts.append((lc, semi + '\n' + text + '\n'))
-                else:
-                    inserts.append((lo + 1, '\n' + text + '\n'))
-            elif anchor.startswith('before '):
-                needle = anchor[len('before '):]
-                cnt = b.count(needle)
-                if cnt != 1:
-                    raise ExtractError('lost anchor: fn %s hint anchor %r occurs %d times' % (key, needle, cnt))
-                inserts.append((b.index(needle), text + '\n'))
-            elif anchor.startswith('after '):
-                needle = anchor[len('after '):]
-                cnt = b.count(needle)
-                if cnt != 1:
-                    raise ExtractError('lost anchor: fn %s hint anchor %r occurs %d times' % (key, needle, cnt))
-                inserts.append((b.index(needle) + len(needle), '\n' + text + '\n'))
-            else:
-                raise ExtractError('fn %s: unknown hint anchor %r' % (key, anchor))
-        # Apply rewrites on segments between inserts so that offsets stay valid: simplest is to mark
-        # insert points with unique placeholders first.
-        marks = {}
-        for idx, (off, text) in enumerate(sorted(inserts, key=lambda x: -x[0])):
-            ph = '/*@@INS%d@@*/' % idx
-            marks[ph] = text
-            b = b[:off] + ph + b[off:]
-        b = apply_rewrites(b, c.src, base_line, log)
-        b = annotate_closures(b, c.closures, c.src, base_line, log)
-        if c.btree_loops:
-            b = rewrite_for_btree(b, c.btree_loops, c.src, base_line, log)
-        if c.rename_calls:
-            b = rename_calls(b, c.rename_calls, c.src, base_line, log)
-        if c.ghost_calls:
-            garg = c.hints.get('__ghost_arg__', 'Tracked(log)')
-            b = insert_ghost_args(b, set(c.ghost_calls), garg, c.src, base_line, log)
-        for ph, text in marks.items():
-            b = b.replace(ph, text)
         body_first = self.emit(b + ('\n}' if it.ctx else '') + '\n', None)
         body_last = len(self.lines)
         # register loop clause lines
